@@ -1,7 +1,8 @@
 (* C09 - Saved configuration is the only input of later regenerations.
    Only statements; proofs live in theories/State. *)
 From Coq Require Import String.
-From BFG Require Import Base.Chars State.EnvStore State.EnvStoreProofs State.EnvJson State.EnvJsonProofs State.EnvUpgradeProofs.
+From BFG Require Import Base.Chars State.EnvStore State.EnvStoreProofs State.EnvJson State.EnvJsonProofs State.EnvUpgradeProofs
+  State.EnvUpgradeDirsProofs.
 
 (* After every sequence of operations on EnvVarDict(pairs) (every overridden mutator, reset, a JSON round trip
    in the middle, reads of changes), applying the recorded changes to the initial variables gives a mapping
@@ -117,6 +118,53 @@ Print Assumptions C09_upgrade_variables_new.
 Theorem C09_upgrade_current : forall x d, upgrade x 17%N d = Ok d.
 Proof. exact upgrade_current. Qed.
 Print Assumptions C09_upgrade_current.
+
+(* every install directory the older format stored survives the upgrade chain, whatever the stored version and
+   the machine: the entry k of install_dirs is carried over, changed only by the documented rewrites
+   (idir_up: before v10 bindir / libdir move from prefix to exec_prefix, before v11 the destdir flag False is
+   appended).  [stored v k]: exec_prefix exists from v10 on, datadir and mandir from v17 on; those are the only
+   entries a step may set.  So no step overwrites a directory the format it upgrades from already had. *)
+Theorem C09_upgrade_preserves_install_dirs : forall x v d d' k j,
+  upgrade x v d = Ok d' -> idir d k = Some j -> stored v k = true ->
+  exists j', idir d' k = Some j' /\ idir_up v k j = Ok j'.
+Proof. exact upgrade_preserves_install_dirs. Qed.
+Print Assumptions C09_upgrade_preserves_install_dirs.
+
+(* from v11 on a stored entry is unchanged *)
+Theorem C09_upgrade_install_dirs_from_11 : forall x v d d' k j,
+  upgrade x v d = Ok d' -> (11 <= v)%N -> idir d k = Some j -> stored v k = true -> idir d' k = Some j.
+Proof. exact upgrade_install_dirs_from_11. Qed.
+Print Assumptions C09_upgrade_install_dirs_from_11.
+
+(* a version-10 document keeps its exec_prefix *)
+Theorem C09_upgrade_exec_prefix_v10 : forall x d d' a r,
+  upgrade x 10%N d = Ok d' -> idir d (STR "exec_prefix") = Some (JArr [a; r]) ->
+  idir d' (STR "exec_prefix") = Some (JArr [a; r; JBool false]).
+Proof. exact upgrade_exec_prefix_v10. Qed.
+Print Assumptions C09_upgrade_exec_prefix_v10.
+
+(* non-vacuity: a version-10 document with exec_prefix below an absolute directory and bindir below prefix *)
+Example C09_upgrade_v10_example :
+  let x := mkExt (fun _ => Some (STR "4.3")) (STR "x86_64")
+                 (JArr [JStr (STR "share/"); JStr (STR "prefix"); JBool false])
+                 (JArr [JStr (STR "man/"); JStr (STR "datadir"); JBool false]) in
+  let d := [(STR "bfgdir", JArr [JStr (STR "/b/"); JStr (STR "absolute")]); (STR "backend", JStr (STR "make"));
+            (STR "backend_version", JStr (STR "4.3"));
+            (STR "srcdir", JArr [JStr (STR "/s/"); JStr (STR "absolute")]);
+            (STR "builddir", JArr [JStr (STR "/o/"); JStr (STR "absolute")]);
+            (STR "install_dirs", JObj [(STR "prefix", JArr [JStr (STR "/usr/"); JStr (STR "absolute")]);
+                                       (STR "exec_prefix", JArr [JStr (STR "/opt/arch/"); JStr (STR "absolute")]);
+                                       (STR "bindir", JArr [JStr (STR "bin/"); JStr (STR "prefix")])]);
+            (STR "extra_args", JArr []); (STR "library_mode", JArr [JBool false; JBool true]);
+            (STR "platform", JStr (STR "linux")); (STR "variables", JObj [(STR "CC", JStr (STR "gcc"))])] in
+  match upgrade x 10 d with
+  | Ok d' => idir d' (STR "exec_prefix") = Some (JArr [JStr (STR "/opt/arch/"); JStr (STR "absolute"); JBool false])
+             /\ idir d' (STR "bindir") = Some (JArr [JStr (STR "bin/"); JStr (STR "prefix"); JBool false])
+             /\ stored 10 (STR "exec_prefix") = true /\ stored 9 (STR "exec_prefix") = false
+             /\ stored 16 (STR "datadir") = false /\ stored 17 (STR "datadir") = true
+  | _ => False
+  end.
+Proof. vm_compute. repeat split. Qed.
 
 (* non-vacuity: the v4 fixture of the test suite (test/data/environment/v4) upgrades and loads *)
 Example C09_upgrade_v4_example :
